@@ -58,7 +58,7 @@ class CallGen:
         # registered names are case sensitive C identifiers
         name = self.ch.choice(["vf", "vF", "satU", "lowBits"], "fname") + f"{self.uid}_{self.n}"
         kind = ch.weighted([("ret_param", 4), ("ret_cast", 3), ("ret_bin", 3), ("local", 3), ("branch", 3), ("postinc", 4),
-                            ("nested", 4 if self.value_funcs() else 0), ("loop", 2), ("void_write", 2), ("pc_read", 1)], "fkind")
+                            ("nested", 4 if self.value_funcs() else 0), ("loop", 2), ("void_write", 2), ("pc_read", 1), ("ext_write_ret", 1)], "fkind")
         A = self.cfg == "A"
         if kind == "ret_param":
             P = ch.choice(ALL_T, "P")
@@ -99,6 +99,11 @@ class CallGen:
             P = ch.choice(WIDE_T[:2], "P")
             R = None
             body = [("regassign", "RdV", ("bin", ch.choice(["+", "^", "-"], "vop"), ("var", "v"), ("lit", ch.choice([1, 3, 16], "vlit"), P)), ("s", 32))]
+            params = [(("ext", "HexInsnPktBundle *"), "bundle"), (("ext", "const HexOp *"), "RdV"), (P, "v")]
+        elif kind == "ext_write_ret":
+            P = ch.choice(WIDE_T[:2], "P")
+            R = P
+            body = [("regassign", "RdV", ("bin", "+", ("var", "v"), ("lit", 2, P)), ("s", 32)), ("return", ("var", "v"))]
             params = [(("ext", "HexInsnPktBundle *"), "bundle"), (("ext", "const HexOp *"), "RdV"), (P, "v")]
         elif kind == "pc_read":
             P = ("u", 32)
@@ -224,16 +229,24 @@ class CallGen:
             return n
 
         user = [self.funcs[n] for n in self.value_funcs()]
-        voids = [self.funcs[n] for n in self.order if self.funcs[n]["ret"] is None]
+        voids = [self.funcs[n] for n in self.order if any(pt[0] == "ext" for pt, _ in self.funcs[n]["params"])]
         # conv_round shifts by its second argument: only called with literal amounts (FIXED_CALLERS), never with data
         bundled = [dict(v, name=k) for k, v in cref.BUNDLED.items() if k != "conv_round"] if allow_bundled else []
         pool = user * 3 + bundled
         form = ch.weighted([("single", 5), ("two_calls", 5), ("parked", 4), ("arg_call", 3), ("three_calls", 2), ("cond_calls", 1),
-                            ("const_cond_calls", 2), ("reassign", 3), ("void_call", 4 if voids else 0), ("loop_cond_call", 2)], "cform")
+                            ("const_cond_calls", 2), ("reassign", 3), ("void_call", 4 if voids else 0), ("loop_cond_call", 2),
+                            ("branch_call", 4 if voids else 0)], "cform")
         stmts = []
         srcs = ["RssV", "RttV"]
 
         def load_arg(P, k):
+            if ch.chance(1, 8, "cmparg"):
+                # the argument is directly a comparison result (int 0/1 in C)
+                T = ch.choice(WIDE_T, "cmpT")
+                v1, v2 = fresh(k), fresh(k)
+                stmts.append(("decl", T, v1, ("cast", T, ("reg", "RssV", ("s", 64)))))
+                stmts.append(("decl", T, v2, ("cast", T, ("reg", "RttV", ("s", 64)))))
+                return ("cmp", ch.choice(["<", ">", "==", "!=", "<=", ">="], "cmpop"), ("var", v1), ("var", v2))
             if ch.chance(1, 4, "castarg"):
                 # an explicit cast as the argument expression: variable type V -> cast type C -> parameter type P
                 C = self.pick(ALL_T, lambda c: not (self.cfg == "A" and f5a(c, P)), "C")
@@ -305,6 +318,21 @@ class CallGen:
             stmts.append(("expr", ("call", f["name"], [("ext", "bundle"), ("ext", "RdV"), arg])))
             outs = [("@RdV", ("s", 32))]
             uses = [f["name"], g["name"]]
+        elif form == "branch_call":
+            # a call with a by-reference register operand as a statement of one arm of an if: it runs only when that arm does
+            f = ch.choice(voids, "vf")
+            P = [pt for pt, _ in f["params"] if pt[0] != "ext"][0]
+            A_ = self.arg_for(P, "RssV", "A")
+            arg = ("cast", A_, ("reg", "RssV", ("s", 64)))
+            callst = ("expr", ("call", f["name"], [("ext", "bundle"), ("ext", "RdV"), arg]))
+            other = ("regassign", "RdV", ("lit", ch.choice([0, 7, 0x1234], "blit"), ("s", 32)), ("s", 32))
+            cond = ("cmp", ch.choice(["<", ">=", "=="], "bcmp"), ("reg", "RssV", ("s", 64)), ("reg", "RttV", ("s", 64)))
+            if ch.chance(1, 2, "call-in-else"):
+                stmts.append(("if", cond, [other], [callst]))
+            else:
+                stmts.append(("if", cond, [callst], [other]))
+            outs = [("@RdV", ("s", 32))]
+            uses = [f["name"]]
         elif form == "loop_cond_call":
             # a call inside a loop condition
             f = ch.choice(pool, "f")
